@@ -92,3 +92,10 @@ reg("C33", "model_checking", "TLA+ spec TgQueue model-checked with TLC; trace va
     "every trace of interface calls (order, overlap, start times), device processing and join()/stop() returns must be a behaviour of the spec.",
     "Trusted: TLC, virtual-time loop, mocked interface. Liveness is observed as join()/stop() returning within 600 virtual seconds.",
     "DESIGN.md section 5 C33")
+
+reg("C25", "model_checking", "TLA+ design model Life model-checked with TLC (repaired, deviation, no auto-reconnect); monitor trace validation of real UDP/TCP tunnel sessions with failures injected at every loop iteration",
+    "Life is model-checked for the repaired behaviour and must produce a counterexample for the pinned one; a real UDPTunnel/TCPTunnel session (connect, send, heartbeats, send, disconnect) is run "
+    "with a server DisconnectRequest, two of them, a user disconnect() and pairs of these injected at every event-loop iteration, plus lost/failed heartbeats, with auto-reconnect on and off; "
+    "every trace must satisfy the TLA+ monitor: at most one reconnect task, no frame after disconnect() returned, real transitions only, every callback once per change, CONNECTED only after an error-free ConnectResponse.",
+    "Trusted: TLC, virtual-time loop (real asyncio scheduling order), simulated gateway. Secure tunnels are not driven (their lifecycle code is the shared _Tunnel).",
+    "DESIGN.md section 5 C25")
